@@ -53,7 +53,8 @@ def required(tier):
           'lifecycle:off', 'class:wide', 'class:narrow', 'class:small', 'class:freight',
           'fuel:jetA', 'fuel:random', 'outcome:balanced', 'earlier-inventory:still-balanced',
           'contract:evaluated', 'workload:repository-tests-under-contract',
-          'recompute:after-attaching-inventory-and-changing-fuel']
+          'recompute:after-attaching-inventory-and-changing-fuel',
+          'trajectory:optional-phases-populated', 'split:stale-counts']
     return {'classes': cl, 'counters': {'contract_evaluations': 1000}, 'evaluations': 1000}
 
 
@@ -164,6 +165,8 @@ def run_shard(spec, rec):
                     f'nvpm:{pm.desc["nvpm_data"]}:{cfg["pmnvol_method"]}')
             if n == 2:
                 rec.cls('length:2')
+            if td.get('optional_phases'):
+                rec.cls('trajectory:optional-phases-populated')
             # ---- the inventory is attached to the trajectory (as before writing it to a
             # store), the trajectory gets another fuel-mass profile (re-flown with another
             # load), and the emissions are computed again: the new inventory must balance
